@@ -200,7 +200,7 @@ func setAlgCase[T comparable](s *SetSys[T], pa, pb []Op, same bool, opn string, 
 					now = sortedRender(s, objs[o])
 				}
 				if now != before[o] {
-					return viol(p, "invariant", "%s: after %s on %s, %s changed from %s to %s (shared state)", desc,
+					return viol(tag("C13", "C18"), "invariant", "%s: after %s on %s, %s changed from %s to %s (shared state)", desc,
 						m.name, []string{"a", "b", "the result"}[target], []string{"a", "b", "the result"}[o], before[o], now)
 				}
 			}
@@ -327,7 +327,18 @@ func init() {
 func setAlgBig(j Job, r *JobResult, kind string, maxA int) {
 	p := tag("C13")
 	cmpNat := intCmp("nat")
-	mk := func(form int, vals []int) *setAPI[int] { // form 0: New() then Add one by one; 1: New(values...)
+	var mk func(form int, vals []int) *setAPI[int]
+	forms := 2
+	if kind != "hashset" {
+		forms = 4 // the enumerable sets: operands that are themselves RESULTS of Select / Map
+	}
+	mk = func(form int, vals []int) *setAPI[int] { // form 0: New() then Add one by one; 1: New(values...); 2: Select(always) of form 1; 3: Map(identity) of form 0
+		switch form {
+		case 2:
+			return mk(1, vals).selectF(func(int, int) bool { return true })
+		case 3:
+			return mk(0, vals).mapF(func(_ int, v int) int { return v })
+		}
 		switch kind {
 		case "hashset":
 			if form == 1 {
@@ -373,11 +384,12 @@ func setAlgBig(j Job, r *JobResult, kind string, maxA int) {
 					bvals = append(bvals, c)
 				}
 			}
-			for forms := 0; forms < 4; forms++ {
+			for fc := 0; fc < forms*forms; fc++ {
+				fa, fb := fc%forms, fc/forms
 				for _, opn := range setAlgOps {
 					for order := 0; order < 2; order++ {
 						inflightSeq.Add(1)
-						a, b := mk(forms&1, avals), mk(forms>>1, bvals)
+						a, b := mk(fa, avals), mk(fb, bvals)
 						x, y, xv, yv := a, b, avals, bvals
 						if order == 1 {
 							x, y, xv, yv = b, a, bvals, avals
@@ -389,7 +401,7 @@ func setAlgBig(j Job, r *JobResult, kind string, maxA int) {
 							want := setMathResult(sys, opn, xv, yv)
 							got := res.values()
 							if !sameAsSet(sys, got, want) {
-								return viol(p, "mismatch", "%s: {0..%d}%s / %v%s, %s (receiver first=%v): result %v, mathematical result %v", kind, na-1, formName(forms&1), bvals, formName(forms>>1), opn, order == 0, got, want)
+								return viol(p, "mismatch", "%s: {0..%d}%s / %v%s, %s (receiver first=%v): result %v, mathematical result %v", kind, na-1, formName(fa), bvals, formName(fb), opn, order == 0, got, want)
 							}
 							if kind == "treeset" {
 								for i := 1; i < len(got); i++ {
@@ -411,10 +423,10 @@ func setAlgBig(j Job, r *JobResult, kind string, maxA int) {
 									exp = append(append([]int{}, exp[:len(want)/2]...), exp[len(want)/2+1:]...)
 								}
 								if g := res.values(); !sameAsSet(sys, g, exp) || res.size() != len(exp) || !res.contains(777) {
-									return viol(p, "mismatch", "%s: {0..%d}%s / %v%s, %s (receiver first=%v), then Add(777) and one Remove on the result: %v (Size %d), want %v", kind, na-1, formName(forms&1), bvals, formName(forms>>1), opn, order == 0, g, res.size(), exp)
+									return viol(p, "mismatch", "%s: {0..%d}%s / %v%s, %s (receiver first=%v), then Add(777) and one Remove on the result: %v (Size %d), want %v", kind, na-1, formName(fa), bvals, formName(fb), opn, order == 0, g, res.size(), exp)
 								}
 								if Canon(CanonOpts{}, x.obj) != kx || Canon(CanonOpts{}, y.obj) != ky {
-									return viol(p, "invariant", "%s: mutating the result of %s on {0..%d} / %v changed an operand", kind, opn, na-1, bvals)
+									return viol(tag("C13", "C18"), "invariant", "%s: mutating the result of %s on {0..%d} / %v changed an operand", kind, opn, na-1, bvals)
 								}
 							}
 							if sh := append(SharedMemory(res.obj, x.obj), SharedMemory(res.obj, y.obj)...); len(sh) > 0 {
@@ -422,7 +434,7 @@ func setAlgBig(j Job, r *JobResult, kind string, maxA int) {
 								res.add(555)
 								res.remove(0)
 								if Canon(CanonOpts{}, x.obj) != kx || Canon(CanonOpts{}, y.obj) != ky {
-									return viol(p, "invariant", "%s: the result of %s on {0..%d} / %v shares %v with an operand: mutating it changed the operand", kind, opn, na-1, bvals, sh)
+									return viol(tag("C13", "C18"), "invariant", "%s: the result of %s on {0..%d} / %v shares %v with an operand: mutating it changed the operand", kind, opn, na-1, bvals, sh)
 								}
 							}
 							return nil
@@ -444,14 +456,11 @@ func setAlgBig(j Job, r *JobResult, kind string, maxA int) {
 		r.St.States++
 		r.St.PerSize[na]++
 	}
-	r.St.Samples = []any{map[string]any{"system": kind + " large operands", "a": "{0..na-1} for na = 0.." + fmt.Sprint(maxA), "b": "every subset of {0, na/2, na-1, 100, 101}", "operations": setAlgOps, "both_orders": true, "constructor_forms": "New()+Add and New(values...) in all four combinations"}}
+	r.St.Samples = []any{map[string]any{"system": kind + " large operands", "a": "{0..na-1} for na = 0.." + fmt.Sprint(maxA), "b": "every subset of {0, na/2, na-1, 100, 101}", "operations": setAlgOps, "both_orders": true, "operand_forms": "New()+Add, New(values...), and for the enumerable sets Select(always) / Map(identity) results, in all combinations"}}
 }
 
 func formName(f int) string {
-	if f == 1 {
-		return " [New(values...)]"
-	}
-	return " [New()+Add]"
+	return []string{" [New()+Add]", " [New(values...)]", " [New(values...).Select(always)]", " [(New()+Add).Map(identity)]"}[f]
 }
 
 func init() {
